@@ -213,6 +213,9 @@ def run(prop, tier, seed, replay=None):
     if prop == "C02":
         from . import racecheck
         racecheck.reader_overlap(rep, tier, seed)
+    if prop == "C03":
+        from . import racecheck
+        racecheck.conditional_overlap(rep, tier, seed)
     if prop == "C07":
         sync_overlap(rep, tier)
     nev = sum(len(t["events"]) for t in traces)
